@@ -254,6 +254,42 @@ def r194(ctx, fx):
     if not locked:
         ctx.finding(rid, key, "the breakpoint test searches `%s`, which is not the locked shared breakpoint list: a setBreakpoints that races with the refresh of that "
                     "copy is lost until the next one, and the machine runs over a verified breakpoint" % "/".join(sorted(r for r in roots if r)), f.where)
+    # what exempts an instruction from the test is the address the machine was halted at, nothing coarser: every conjunct of the condition that guards the
+    # test, other than the `no_debug` switch, compares something with the current `pc`
+    from .c11 import _anc_walk
+    key3 = "%s|exemption-by-address" % f.path
+    guard = None
+    for x, anc in _anc_walk(hir):
+        if x is tests[0]:
+            ifs = [p_ for p_, k_ in anc if p_.get("k") == "if" and k_ == "then"]
+            # the innermost `if` around the test that is not the test's own `if`
+            for p_ in reversed(ifs):        # innermost first
+                if not any(y is tests[0] for y in lib.hwalk(p_["cond"])) and p_.get("src") not in ("While", "WhileLoop"):
+                    guard = p_
+                    break
+    conj = []
+    if guard is not None:
+        def split(c):
+            c = lib.strip(c)
+            if c.get("k") == "binary" and c.get("op") == "And":
+                split(c["l"])
+                split(c["r"])
+            else:
+                conj.append(c)
+        split(guard["cond"])
+    coarse = []
+    for c in conj:
+        names = {lib.hpath(y) for y in lib.hwalk(c) if y.get("k") == "path" and (y.get("res") or {}).get("dk") == "Local"}
+        if names & {"no_debug", "thread_no_debug"} or any(str(n_).endswith("no_debug") for n_ in names if n_):
+            continue
+        if "pc" in names and any(y.get("k") == "binary" and y.get("op") in ("Eq", "Ne") for y in lib.hwalk(c)):
+            continue
+        coarse.append(sorted(n_ for n_ in names if n_))
+    ctx.inst(rid, key3, sample={"conditions_of_the_test": len(conj), "not_bound_to_the_pc": coarse})
+    if coarse:
+        ctx.finding(rid, key3, "the breakpoint test is skipped on a condition that does not compare with the program counter (%s): whatever sets it without the machine "
+                    "having been halted *at this address* — the wait for `configurationDone`, a `pause` somewhere else — lets the machine run over a breakpoint on "
+                    "the instruction it starts at" % ", ".join("/".join(c_) for c_ in coarse), "%s:%s" % (f.file, guard.get("ln")))
     # the exemption variable: assigned None (reset) after the step
     key2 = "%s|exemption-ends" % f.path
     ctx.inst(rid, key2)
